@@ -2,7 +2,9 @@
 
 Case lines
   1 start end
-  2 nts reload                      nts = number of time-series arguments (0..2); reload = switch_cases(...).reload()
+  2 nts reload [shape]              nts = number of time-series arguments (0..2); reload = switch_cases(...).reload();
+                                    shape 0 (default): TS<int> output, emit = out.set(v); shape 1: TSS<int> output owned by
+                                    the switch, emit = out.add(v) (the set a branch instance has published so far)
   3 key slot usekey                 case entry: key value -> body table slot; usekey: the branch takes the key as first argument
   4 slot usekey                     default branch
   5 slot sos etick ewake rtick rwake d c m l acc cnt wk     body table entry (see below)
@@ -25,9 +27,11 @@ Observation lines
   26 t inst st woke (valid modified value)*   user code of the body ran
   27 t inst v           body emitted v
   28 t inst when        body requested a wake-up
-  20 t valid modified v recorder on the switch output saw a tick
+  20 t valid modified v recorder on the switch output saw a tick (shape 0)
+  21 t valid modified nv na nr members.. added.. removed..    recorder on a TSS output: value and delta of the cycle, sorted
   29 code               error: 2 unmatched key without default, 9 malformed case (others: unexpected)
-  30 valid v lmt        final state of the switch output
+  30 valid v lmt        final state of the switch output (shape 0)
+  31 valid lmt n members..          final state of a TSS output
 """
 import random
 
@@ -64,9 +68,21 @@ def _body(rng):
     return b
 
 
+def _body_nested(rng):
+    """Bodies for the nested-wrapper variant: emit on EVERY run (erun) and never look at the inputs' modified
+    flags for state or timers (acc = cnt = rtick = 0), so the activation cycle is observable at the output and
+    the body is insensitive to the modified-flag difference documented in notes-switch.md section 6."""
+    return dict(sos=rng.randint(0, 1), etick=rng.randint(0, 1), ewake=rng.randint(0, 1), rtick=0, rwake=rng.randint(0, 1),
+                d=rng.choice([1, 1, 2, 3, 4]), c=rng.randint(-5, 20), m=rng.randint(-1, 2), l=rng.choice([1, 1, 2, -1, 0]),
+                acc=0, cnt=0, wk=rng.randint(0, 3), erun=1)
+
+
 def _body_line(slot, b):
-    return [5, slot, b["sos"], b["etick"], b["ewake"], b["rtick"], b["rwake"], b["d"], b["c"], b["m"], b["l"], b["acc"],
-            b["cnt"], b["wk"]]
+    l = [5, slot, b["sos"], b["etick"], b["ewake"], b["rtick"], b["rwake"], b["d"], b["c"], b["m"], b["l"], b["acc"],
+         b["cnt"], b["wk"]]
+    if b.get("erun"):
+        l.append(1)
+    return l
 
 
 def gen(rng, tier, prop):
@@ -76,11 +92,19 @@ def gen(rng, tier, prop):
     span = rng.randint(6, 22 if tier == "quick" else 40)
     end = start + span
     nts = rng.choice([0, 1, 1, 1, 2, 2])
-    reload = 1 if rng.random() < 0.2 else 0
-    case = [[1, start, end], [2, nts, reload]]
+    reload = 1 if rng.random() < 0.25 else 0
+    shape = 1 if rng.random() < 0.4 else 0
+    depth = 0
+    if prop == "C09" or rng.random() < 0.15:
+        shape, depth = 0, rng.choice([1, 2])           # every branch body wrapped in nested_<G>, depth 1 or 2
+    hdr = [2, nts, reload, shape, depth] if depth else ([2, nts, reload, shape] if shape or rng.random() < 0.5 else [2, nts, reload])
+    case = [[1, start, end], hdr]
     nslots = rng.randint(1, NSLOT)
     for s in range(nslots):
-        case.append(_body_line(s, _body(rng)))
+        b = _body_nested(rng) if depth else _body(rng)
+        if not depth and rng.random() < 0.1:
+            b["erun"] = 1
+        case.append(_body_line(s, b))
     keys = rng.sample([1, 2, 3, 4, 5], rng.randint(1, 4))
     for k in keys:
         case.append([3, k, rng.randrange(nslots), 1 if rng.random() < 0.35 else 0])
@@ -130,8 +154,9 @@ def gen(rng, tier, prop):
                 ts.add(t)
         if rng.random() < 0.15:
             ts.add(start - 1)             # before the start time: never delivered
+        lo_v, hi_v = (-9, 30) if not shape else rng.choice([(0, 3), (0, 6), (-9, 30)])   # small ranges: members overlap
         for t in sorted(ts):
-            case.append([6, src, t, rng.randint(-9, 30)])
+            case.append([6, src, t, rng.randint(lo_v, hi_v)])
     return case
 
 
@@ -139,18 +164,20 @@ def enumerate_cases(prop):
     """Exhaustive small space (thorough tier): every key history over {no tick, 1, 2, 9} at five consecutive
     times, against a fixed input history, with/without default branch and reload: all flip patterns of
     length <= 5 over a stateful branch, a timer branch and an unmatched key."""
+    if prop == "C09":
+        return
     acc = dict(sos=0, etick=1, ewake=0, rtick=0, rwake=0, d=1, c=0, m=1, l=0, acc=1, cnt=0, wk=0)
     timer = dict(sos=0, etick=0, ewake=1, rtick=1, rwake=0, d=2, c=100, m=1, l=0, acc=1, cnt=0, wk=0)
     ticker = dict(sos=1, etick=1, ewake=1, rtick=0, rwake=1, d=2, c=200, m=1, l=1, acc=0, cnt=0, wk=1)
     base = [[1, 1, 12], _body_line(0, acc), _body_line(1, timer), _body_line(2, ticker), [3, 1, 0, 0], [3, 2, 1, 0],
             [6, 1, 1, 5], [6, 1, 3, 6], [6, 1, 4, 7], [6, 1, 6, 8], [6, 1, 9, 9]]
     import itertools
-    for dflt in (0, 1):
-        for reload in (0, 1):
-            for ks in itertools.product((0, 1, 2, 9), repeat=5):
+    for shape, dflt, reload in itertools.product((0, 1), (0, 1), (0, 1)):
+        if True:
+            for ks in itertools.product((0, 1, 2, 9, 8) if (shape and dflt) else (0, 1, 2, 9), repeat=5):
                 if not any(ks):
                     continue
-                c = [list(l) for l in base] + [[2, 1, reload]]
+                c = [list(l) for l in base] + [[2, 1, reload, shape]]
                 if dflt:
                     c.append([4, 2, 1])
                 for i, k in enumerate(ks):
@@ -180,6 +207,8 @@ def _malformed(rng):
         c.append([77, 1, 2, 3])
     elif r == 6:
         c.append([4, rng.choice([-2, NSLOT]), 1])                     # bad default slot
+    elif r == 7 and rng.random() < 0.5:
+        c.append([2, 1, 0, rng.choice([-1, 2, 5])])                   # unknown output shape
     else:
         c.append([1, 0, 9])                                           # start below MIN_ST
     return c
@@ -187,14 +216,16 @@ def _malformed(rng):
 
 # ---------------------------------------------------------------- parsing
 def parse_case(case):
-    d = dict(start=1, end=10, nts=1, reload=0, ents=[], dflt=None, tab=[None] * NSLOT, hist={0: {}, 1: {}, 2: {}})
-    dfl = dict(sos=0, etick=1, ewake=0, rtick=0, rwake=0, d=1, c=0, m=0, l=1, acc=0, cnt=0, wk=0)
+    d = dict(start=1, end=10, nts=1, reload=0, shape=0, depth=0, ents=[], dflt=None, tab=[None] * NSLOT, hist={0: {}, 1: {}, 2: {}})
+    dfl = dict(sos=0, etick=1, ewake=0, rtick=0, rwake=0, d=1, c=0, m=0, l=1, acc=0, cnt=0, wk=0, erun=0)
     d["tab"] = [dict(dfl) for _ in range(NSLOT)]
     for l in case:
         if l[0] == 1 and len(l) >= 3:
             d["start"], d["end"] = l[1], l[2]
         elif l[0] == 2 and len(l) >= 3:
             d["nts"], d["reload"] = l[1], int(l[2] != 0)
+            d["shape"] = l[3] if len(l) >= 4 else 0
+            d["depth"] = l[4] if len(l) >= 5 else 0
         elif l[0] == 3 and len(l) >= 4:
             d["ents"].append((l[1], l[2], int(l[3] != 0)))
         elif l[0] == 4 and len(l) >= 3:
@@ -204,10 +235,11 @@ def parse_case(case):
             b = dict(zip(names, l[2:14]))
             for n in names[:5]:
                 b[n] = int(b[n] != 0)
+            b["erun"] = int(len(l) >= 15 and l[14] != 0)
             d["tab"][l[1]] = b
         elif l[0] == 6 and len(l) >= 4 and 0 <= l[1] <= 2:
             d["hist"][l[1]].setdefault(l[2], l[3])
-    d["ok"] = (0 <= d["nts"] <= 2 and (d["ents"] or d["dflt"] is not None)
+    d["ok"] = (0 <= d["nts"] <= 2 and 0 <= d["shape"] <= 1 and 0 <= d["depth"] <= 2 and (d["depth"] == 0 or d["shape"] == 0) and (d["ents"] or d["dflt"] is not None)
                and all(0 <= e[1] < NSLOT for e in d["ents"])
                and (d["dflt"] is None or 0 <= d["dflt"][0] < NSLOT)
                and 1 <= d["start"] < d["end"] <= 100000)
@@ -261,7 +293,7 @@ def alone(d, br, t0, t1, stop_on=None):
                     st += b["acc"] * sum(v[1] for m, v in zip(mod, vals) if m) + b["cnt"]
                 if woke:
                     st += b["wk"]
-                if (ticked and b["etick"]) or (woke and b["ewake"]):
+                if b["erun"] or (ticked and b["etick"]) or (woke and b["ewake"]):
                     outs.append((t, b["c"] + b["m"] * st + b["l"] * sum(v[1] for v in vals)))
                 if ((ticked and b["rtick"]) or (woke and b["rwake"])) and b["d"] > 0:
                     timers.add(t + b["d"])
@@ -350,12 +382,40 @@ def oracle(prop, case, out):
     # --- fresh state and sampling; behaviour of each instance = the branch alone
     rec = [(l[1], l[4]) for l in out if l[0] == 20]
     exp_rec = []
+    exp_set_lines = []          # shape 1: the recorder lines the selected branches alone would produce
+    container = set()           # what the output holds: ONLY what the current instance has published
     for n, (t0, k, br) in enumerate(good_points):
         t1 = points[n + 1][0] if n + 1 < len(points) else d["end"]
         outs, runs, _ = alone(d, br, t0, t1)
         exp_rec += outs
+        if d["shape"] == 1:
+            # a re-instantiation starts from an empty container: everything the replaced instance had published
+            # and the new one does not re-publish in the same cycle is removed
+            ticks = sorted({t for (t, _) in outs} | ({t0} if n > 0 else set()))
+            for t in ticks:
+                before = set(container)
+                if t == t0 and n > 0:
+                    container = set()
+                container |= {v for (tt, v) in outs if tt == t}
+                add, rem = sorted(container - before), sorted(before - container)
+                exp_set_lines.append([21, t, 1, 1, len(container), len(add), len(rem)] + sorted(container) + add + rem)
         got_runs = [(l[1], l[3], l[4], [tuple(l[5 + 3 * j: 8 + 3 * j]) for j in range((len(l) - 5) // 3)])
                     for l in out if l[0] == 26 and l[2] == n]
+        if d["depth"] > 0:
+            # the wrapped body does not read the sampled inputs as modified (observation, see notes): compare
+            # the runs without that flag, and name any remaining difference after the wrapper
+            if any(iv[0] == 1 and iv[1] == 0 for iv in (got_runs[0][3] if got_runs and got_runs[0][0] == t0 else [])) \
+                    and runs and runs[0][0] == t0 and any(iv[1] == 1 for iv in runs[0][3]):
+                fails.append(("nested_modified_flag_lost", "instance %d at %d: the body wrapped in a nested graph reads its "
+                              "sampled inputs as %s; inlined it reads %s" % (n, t0, got_runs[0][3], runs[0][3])))
+            if got_runs and got_runs[0][1] != 0:
+                fails.append(("not_fresh", "instance %d (key %d selected at %d) first runs with state %d, not 0"
+                              % (n, k, t0, got_runs[0][1])))
+            strip = lambda rs: [(a, b, c, [(v, 0, x) for (v, _, x) in ivs]) for (a, b, c, ivs) in rs]
+            if strip(got_runs) != strip(runs):
+                fails.append(("nested_in_branch_differs", "instance %d (branch slot %d, body nested %d deep) ran %s; the inlined "
+                              "body runs %s" % (n, br[0], d["depth"], strip(got_runs)[:6], strip(runs)[:6])))
+            continue
         if got_runs and got_runs[0][1] != 0:
             fails.append(("not_fresh", "instance %d (key %d selected at %d) first runs with state %d, not 0"
                           % (n, k, t0, got_runs[0][1])))
@@ -368,6 +428,31 @@ def oracle(prop, case, out):
                               % (n, t0, got_runs[0][3], runs[0][3])))
         if got_runs != runs and not any(f[0] in ("not_fresh", "not_sampled") for f in fails):
             fails.append(("branch_runs", "instance %d (branch slot %d) ran %s; alone it runs %s" % (n, br[0], got_runs[:6], runs[:6])))
+    if d["depth"] > 0:
+        # the same case with the body inlined was run first by the driver (lines 40): per cycle the two outputs agree
+        inl = [l[1:] for l in out if l[0] == 40]
+        nst = [l[1:] for l in out if l[0] == 20]
+        if inl != nst:
+            i = next((j for j in range(min(len(inl), len(nst))) if inl[j] != nst[j]), min(len(inl), len(nst)))
+            fails.append(("nested_in_branch_differs", "switch output with the body nested %d deep: %s; with the body inlined: %s "
+                          "(t valid modified value; first difference at tick %d)"
+                          % (d["depth"], nst[max(0, i - 1): i + 2], inl[max(0, i - 1): i + 2], i)))
+    if d["shape"] == 1:
+        got_lines = [l for l in out if l[0] == 21]
+        if got_lines != exp_set_lines:
+            i = next((j for j in range(min(len(got_lines), len(exp_set_lines))) if got_lines[j] != exp_set_lines[j]),
+                     min(len(got_lines), len(exp_set_lines)))
+            g = got_lines[i] if i < len(got_lines) else None
+            e = exp_set_lines[i] if i < len(exp_set_lines) else None
+            kind = "output_mismatch"
+            if g and e and g[1] == e[1] and any(p[0] == g[1] for p in good_points[1:]):
+                kind = "old_members_survive" if set(g[7:7 + g[4]]) > set(e[7:7 + e[4]]) else "output_mismatch"
+            fails.append((kind, "TSS output at tick %d is %s (21 t valid mod nv na nr members added removed); the selected "
+                                "branch instances alone give %s" % (i, g, e)))
+        fin = [l for l in out if l[0] == 31]
+        if fin and sorted(container) != fin[0][4:]:
+            fails.append(("output_mismatch", "final members %s, selected instance alone published %s" % (fin[0][4:], sorted(container))))
+        rec, exp_rec = [], []
     if rec != exp_rec:
         i = next((j for j in range(min(len(rec), len(exp_rec))) if rec[j] != exp_rec[j]), min(len(rec), len(exp_rec)))
         fails.append(("output_mismatch", "output ticks %s; the selected branches alone give %s (first difference at index %d)"
@@ -377,7 +462,7 @@ def oracle(prop, case, out):
             fails.append(("output_mismatch", "recorder ran without a valid modified output: %s" % l))
     # --- observation, not part of C12's tick-stream statement: the held VALUE of the output between a
     # switch and the new branch's first tick is the old branch's last value
-    for n, (t0, k, br) in enumerate(good_points[1:], 1):
+    for n, (t0, k, br) in enumerate(good_points[1:] if d["shape"] == 0 else [], 1):
         before = [r for r in rec if r[0] < t0]
         at = [r for r in rec if r[0] == t0]
         if before and not at:
@@ -390,15 +475,45 @@ def oracle(prop, case, out):
 PROP_KINDS = {
     "C12": {"missing_error", "spurious_error", "instance_per_selection", "slot_protocol", "two_running", "stopped_twice",
             "eval_after_stop", "eval_not_active", "not_fresh", "not_sampled", "branch_runs", "output_mismatch",
+            "old_members_survive", "nested_in_branch_differs",
             "malformed_not_rejected"},
+    "C09": {"nested_in_branch_differs"},
 }
+
+
+# ---------------------------------------------------------------- comparison
+def _norm_nested(out):
+    """Nested-wrapper cases (depth > 0) are compared modulo two documented differences of the unchanged tree
+    (notes-switch.md section 6): the `modified` flag the wrapped body reads in its activation cycle, and the
+    final state of the (now forwarding) switch output after the run has stopped."""
+    if not isinstance(out, list):
+        return out
+    r = []
+    for l in out:
+        if l and l[0] == 30:
+            continue
+        if l and l[0] == 26:
+            l = list(l)
+            for j in range(6, len(l), 3):
+                l[j] = 0
+        r.append(l)
+    return r
+
+
+def agree(case, impl_out, model_out):
+    if not isinstance(impl_out, list) or not isinstance(model_out, list):
+        return False
+    d = parse_case(case)
+    if d["ok"] and d["depth"] > 0:
+        return _norm_nested(impl_out) == _norm_nested(model_out)
+    return impl_out == model_out
 
 
 # ---------------------------------------------------------------- evidence helpers
 def nontrivial(case, out):
     if not isinstance(out, list):
         return False
-    return sum(1 for l in out if l[0] == 22) >= 2 and any(l[0] == 20 for l in out)
+    return sum(1 for l in out if l[0] == 22) >= 2 and any(l[0] in (20, 21) for l in out)
 
 
 def stats(case, out):
@@ -427,7 +542,15 @@ def stats(case, out):
             "rapid_flips": rapid, "unmatched_error": int(err_at is not None), "default_selected": dfl,
             "reload_cases": d["reload"], "key_consuming": sum(1 for e in d["ents"] if e[2]),
             "nts0": int(d["nts"] == 0), "nts1": int(d["nts"] == 1), "nts2": int(d["nts"] == 2),
-            "output_ticks": sum(1 for l in out if l[0] == 20), "body_runs": sum(1 for l in out if l[0] == 26),
+            "set_shape": int(d["shape"] == 1), "nested_depth1": int(d["depth"] == 1), "nested_depth2": int(d["depth"] == 2),
+            "nested_activations_with_held_input": (sum(1 for l in out if l[0] == 26 and any(l[1] == p[0] for p in points))
+                                                   if d["depth"] > 0 else 0),
+            "same_branch_rebuilt": sum(1 for a, b in zip(points, points[1:]) if b[2] is not None and a[2] == b[2]),
+            "same_branch_rebuilt_set_shape": sum(1 for a, b in zip(points, points[1:]) if b[2] is not None and a[2] == b[2]) * int(d["shape"] == 1),
+            "members_dropped_at_switch": sum(l[6] for l in out if l[0] == 21 and any(l[1] == p[0] for p in points[1:])),
+            "distinct_unmatched_to_default": sum(1 for a, b in zip(points, points[1:]) if b[2] is not None and a[2] == b[2] == d["dflt"]
+                                                 and a[1] != b[1] and all(e[0] not in (a[1], b[1]) for e in d["ents"])),
+            "output_ticks": sum(1 for l in out if l[0] in (20, 21)), "body_runs": sum(1 for l in out if l[0] == 26),
             "cycles": sum(1 for l in out if l[0] == 10)}
 
 
